@@ -938,6 +938,11 @@ class SupportComplexDataType(Element):
                 datatype != self.datatype:
             raise OperationNotAllowed("Cannot change datatype using STRICT validation")
 
+        has_children = hasattr(self, 'children') and len(self.children) >= 1
+        if has_children and not is_base_datatype(self.datatype, self.version):
+            # refuse the change before the structure is touched
+            raise OperationNotAllowed("Cannot change datatype: the Element already contains children")
+
         # This will change the structure of the Field/Component so it is done only if the structure
         # is really changed. That's because the first time the datatype is set by the Element._find_structure method
         if not is_base_datatype(datatype, self.version) and \
@@ -951,13 +956,15 @@ class SupportComplexDataType(Element):
                 if k != 'datatype':  # avoid maximum recursion
                     setattr(self, k, v)
 
-        if hasattr(self, 'children') and len(self.children) >= 1:
-            if is_base_datatype(self.datatype, self.version):
-                self._datatype = datatype
-                if is_base_datatype(datatype, self.version):
+        if has_children:
+            old_datatype = self._datatype
+            self._datatype = datatype
+            if is_base_datatype(datatype, self.version):
+                try:
                     self.children[0].datatype = datatype
-            else:
-                raise OperationNotAllowed("Cannot change datatype: the Element already contains children")
+                except Exception:
+                    self._datatype = old_datatype
+                    raise
         else:
             self._datatype = datatype
 
